@@ -142,6 +142,43 @@ pub fn run_auth(args: &Args) -> (u64, u64) {
             }
         }
     }
+    // classes found by trial through the public accessors: a verifier / server key / client key whose top byte(s)
+    // are zero (must be zero-padded, once per 256), each taken through the storage round trip
+    if h.det.is_none() {
+        for round in 0..(if thorough { 12 } else { 3 }) {
+            h.reset("auth-hunt");
+            let (u, p) = CREDS[(round + 2) % CREDS.len()];
+            // salt such that v is short
+            let mut salt = None;
+            for _ in 0..4000 {
+                let v = wow_srp::server::SrpVerifier::from_username_and_password(ns(u), ns(p));
+                if v.password_verifier()[31] == 0 {
+                    salt = Some(*v.salt());
+                    break;
+                }
+            }
+            // server key such that B is short (tried on a throw-away clone of the same record)
+            let mut bk = None;
+            if let Some(s) = salt {
+                clear_hooks();
+                inject("Salt", &s);
+                let v = wow_srp::server::SrpVerifier::from_username_and_password(ns(u), ns(p));
+                for _ in 0..4000 {
+                    clear_hooks();
+                    let pr = v.clone().into_proof();
+                    if pr.server_public_key()[31] == 0 {
+                        bk = wow_srp::verif_hooks::take_log().last().map(|d| arr32(&d.used));
+                        break;
+                    }
+                }
+                clear_hooks();
+            }
+            let prm = Params { user: u, pass: p, typed_user: &case_variant(u, round), typed_pass: &case_variant(p, round + 1), salt, b: bk, a: None, storage: true };
+            if let Some(mut sess) = honest_login(&mut h, &prm) {
+                good_reconnect(&mut h, &mut sess);
+            }
+        }
+    }
     // random sessions: random credentials, genuine RNG draws (nothing injected)
     let n = args.n.unwrap_or(if thorough { 20000 } else { 400 });
     for i in 0..n {
@@ -344,6 +381,8 @@ pub fn run_reconnect(args: &Args) -> (u64, u64) {
                 "good" => h.reconnect_values(s.co, &s.client, chal, None).map(|r| (r.challenge_data, r.proof)),
                 "replayAcc" => accepted.last().cloned(),
                 "replayRej" => rejected.last().cloned(),
+                "replayAccFirst" => if accepted.len() >= 2 { accepted.first().cloned() } else { None },
+                "replayRejFirst" => if rejected.len() >= 2 { rejected.first().cloned() } else { None },
                 "stale" => prev_chal.and_then(|pc| h.reconnect_values(s.co, &s.client, pc, None).map(|r| (r.challenge_data, r.proof))),
                 "wrongK" => other.as_ref().and_then(|o| h.reconnect_values(o.co, &o.client, chal, None).map(|r| (r.challenge_data, r.proof))),
                 "wrongU" => {
@@ -701,10 +740,10 @@ pub fn run_ownkey(args: &Args) -> (u64, u64) {
     }
     let one = { let mut x = [0u8; 32]; x[0] = 1; x };
     if let Some(bpub) = h.pubkey(one) {
-        for (g, n) in [(7u8, 7u8), (255, 5), (2, 2), (3, 3), (6, 3), (250, 5), (7, 11), (2, 5)] {
+        for (g, n) in [(7u8, 7u8), (255, 5), (2, 2), (3, 3), (6, 3), (250, 5), (7, 11), (2, 5), (7, 3), (1, 11), (1, 183), (4, 3), (12, 11)] {
             let mut nn = [0u8; 32];
             nn[0] = n;
-            for a in [one, [0xff; 32], [0x55; 32]] {
+            for a in [[0u8; 32], one, [0xff; 32], [0x55; 32]] {
                 h.client_new("OWNKEY", "X", g, nn, bpub, [1u8; 32], Some(&a));
             }
         }
